@@ -21,6 +21,9 @@ type c18Ref struct {
 	Col    int    `json:"col"` // a column inside the string literal
 	Func   string `json:"func"`
 	Module string `json:"module"`
+	// position of the member access v<i>.common that shows which file the analysis loaded
+	MemLine int `json:"mem_line"`
+	MemCol  int `json:"mem_col"`
 }
 
 func genC18(seed int64, tier string) *Scenario {
@@ -29,7 +32,9 @@ func genC18(seed int64, tier string) *Scenario {
 	if r.Intn(4) == 0 {
 		sc.Sched = RandomSched(r)
 	}
-	dirs := []string{"", "a/", "a/b/", "c/", "lib/", "lib/x/"}
+	// some directories are named like modules: a module name then also occurs earlier in the path of
+	// a deeper candidate
+	dirs := []string{"", "a/", "a/b/", "c/", "lib/", "lib/x/", "util/", "util/m/", "conf/lib/"}
 	names := []string{"m", "n", "util", "conf"}
 	sep := "."
 	if r.Intn(3) == 0 {
@@ -54,13 +59,13 @@ func genC18(seed int64, tier string) *Scenario {
 		tag := strings.NewReplacer("/", "_").Replace(d + n)
 		switch r.Intn(8) {
 		case 0: // package directory with init.lua
-			add(d+n+"/init.lua", fmt.Sprintf("local M = {}\nM.tag_%s_init = 1\nreturn M\n", tag))
+			add(d+n+"/init.lua", fmt.Sprintf("local M = {}\nM.tag_%s_init = 1\nM.common = 1\nreturn M\n", tag))
 			all = append(all, d+n)
 		case 1: // native module
 			add(d+n+".so", "\x7fELF")
 			all = append(all, d+n)
 		default:
-			add(d+n+".lua", fmt.Sprintf("local M = {}\nM.tag_%s = 1\ng_%s = 1\nreturn M\n", tag, tag))
+			add(d+n+".lua", fmt.Sprintf("local M = {}\nM.tag_%s = 1\ng_%s = 1\nM.common = 1\nreturn M\n", tag, tag))
 			all = append(all, d+n)
 		}
 	}
@@ -91,7 +96,11 @@ func genC18(seed int64, tier string) *Scenario {
 		body.WriteString(line)
 	}
 	for i := 0; i < nreq; i++ {
-		fmt.Fprintf(&body, "print(v%d)\n", i)
+		// a member every module defines: go-to-definition on it leads into the file the analysis
+		// actually loaded for v<i>
+		line := fmt.Sprintf("print(v%d.common)\n", i)
+		refs[i].MemLine, refs[i].MemCol = nreq+i, strings.Index(line, "common")+2
+		body.WriteString(line)
 	}
 	add(mainPath, body.String())
 	sort.Slice(sc.Files, func(i, j int) bool { return sc.Files[i].Path < sc.Files[j].Path })
@@ -117,7 +126,7 @@ func genC18(seed int64, tier string) *Scenario {
 			// delete + re-create of the same file reported in one watcher batch (git checkout, atomic
 			// save by rename): the file exists at the end
 			p := cands[r.Intn(len(cands))]
-			sc.Ops = append(sc.Ops, Op{Kind: "fsremove", Path: p}, Op{Kind: "fswrite", Path: p, Data: Bytes("local M = {}\nM.recreated = 1\nreturn M\n")}, Op{Kind: "deliver"}, Op{Kind: "check"})
+			sc.Ops = append(sc.Ops, Op{Kind: "fsremove", Path: p}, Op{Kind: "fswrite", Path: p, Data: Bytes("local M = {}\nM.recreated = 1\nM.common = 1\nreturn M\n")}, Op{Kind: "deliver"}, Op{Kind: "check"})
 			continue
 		}
 		if len(cands) > 0 && r.Intn(2) == 0 {
@@ -143,7 +152,7 @@ func genC18(seed int64, tier string) *Scenario {
 			if r.Intn(3) == 0 {
 				sc.Ops = append(sc.Ops, Op{Kind: "touchq", Path: mainPath})
 			}
-			sc.Ops = append(sc.Ops, Op{Kind: "fswrite", Path: p, Data: Bytes("local M = {}\nreturn M\n")}, Op{Kind: "deliver"})
+			sc.Ops = append(sc.Ops, Op{Kind: "fswrite", Path: p, Data: Bytes("local M = {}\nM.common = 1\nreturn M\n")}, Op{Kind: "deliver"})
 		}
 		sc.Ops = append(sc.Ops, Op{Kind: "check"})
 	}
@@ -163,7 +172,7 @@ func genC18(seed int64, tier string) *Scenario {
 			kind := []string{"eio", "eacces", "enoent", "torn"}[r.Intn(4)]
 			sc.Ops = append(sc.Ops,
 				Op{Kind: "faults", Faults: []simfs.Fault{{Op: "ReadFile", Suffix: m, Nth: 1, Kind: kind, Arg: 3}}},
-				Op{Kind: "fswrite", Path: m, Data: Bytes("local M = {}\nM.changed = 1\nreturn M\n")}, Op{Kind: "deliver"},
+				Op{Kind: "fswrite", Path: m, Data: Bytes("local M = {}\nM.changed = 1\nM.common = 1\nreturn M\n")}, Op{Kind: "deliver"},
 				Op{Kind: "clearfaults"}, Op{Kind: "touch", Path: m}, Op{Kind: "check"})
 			sc.Knobs["fault"] = kind
 		}
@@ -177,6 +186,7 @@ type c18Probe struct {
 	view   []string // diagnostics of the main file
 	defs   []string // definition target per ref ("" = none)
 	hovers []string // hover text per ref
+	loaded []string // file the analysis loaded per ref: definition target of <var>.common ("" = none)
 }
 
 func knobRefs(sc *Scenario) (string, []c18Ref) {
@@ -249,7 +259,9 @@ func checkC18(t *testing.T, sc *Scenario) *Verdict {
 		var ops []Op
 		for _, rf := range refs {
 			p := Pos{rf.Line, rf.Col}
-			ops = append(ops, Op{Kind: "req", Method: "definition", Path: mainPath, Pos: &p}, Op{Kind: "req", Method: "hover", Path: mainPath, Pos: &p})
+			mp := Pos{rf.MemLine, rf.MemCol}
+			ops = append(ops, Op{Kind: "req", Method: "definition", Path: mainPath, Pos: &p}, Op{Kind: "req", Method: "hover", Path: mainPath, Pos: &p},
+				Op{Kind: "req", Method: "definition", Path: mainPath, Pos: &mp})
 		}
 		return ops
 	}
@@ -262,13 +274,14 @@ func checkC18(t *testing.T, sc *Scenario) *Verdict {
 			return ""
 		}
 		ans := e.Query(battery())
-		if len(ans) != 2*len(refs) {
+		if len(ans) != 3*len(refs) {
 			return ""
 		}
 		pr := &c18Probe{at: i, disk: DiskFiles(), view: append([]string(nil), e.Result().View[URI(mainPath)]...)}
 		for k := range refs {
-			pr.defs = append(pr.defs, defTarget(ans[2*k].Result))
-			pr.hovers = append(pr.hovers, ans[2*k+1].Result)
+			pr.defs = append(pr.defs, defTarget(ans[3*k].Result))
+			pr.hovers = append(pr.hovers, ans[3*k+1].Result)
+			pr.loaded = append(pr.loaded, defTarget(ans[3*k+2].Result))
 		}
 		probes = append(probes, pr)
 		return ""
@@ -355,6 +368,14 @@ func checkC18(t *testing.T, sc *Scenario) *Verdict {
 			if hov != (def != "") {
 				return bad("c18-features-disagree", phase+" hover and definition disagree on whether the module resolves", desc)
 			}
+			// definition on the string leads to the file the analysis actually loaded
+			if rf.Func == "require" && def != "" && pr.loaded[k] != def {
+				tag := "definition on the string and the loaded file differ"
+				if pr.loaded[k] == "" {
+					tag = "module resolves but its member is unknown to the analysis"
+				}
+				return bad("c18-features-disagree", phase+" "+tag, desc+fmt.Sprintf(" loaded=%q", pr.loaded[k]))
+			}
 		}
 	}
 	// equals a fresh server after the events
@@ -369,13 +390,16 @@ func checkC18(t *testing.T, sc *Scenario) *Verdict {
 	if strings.Join(fv, "\n") != strings.Join(last.view, "\n") {
 		return bad("c18-differs-from-fresh", "main-file diagnostics after events", fmt.Sprintf("history: %v\nfresh:   %v", last.view, fv))
 	}
-	fa := fr.Answers[len(fr.Answers)-2*len(refs):]
+	fa := fr.Answers[len(fr.Answers)-3*len(refs):]
 	for k := range refs {
-		if defTarget(fa[2*k].Result) != last.defs[k] {
-			return bad("c18-differs-from-fresh", "definition after events", fmt.Sprintf("%s(%q): history %q fresh %q", refs[k].Func, refs[k].Module, last.defs[k], defTarget(fa[2*k].Result)))
+		if defTarget(fa[3*k].Result) != last.defs[k] {
+			return bad("c18-differs-from-fresh", "definition after events", fmt.Sprintf("%s(%q): history %q fresh %q", refs[k].Func, refs[k].Module, last.defs[k], defTarget(fa[3*k].Result)))
 		}
-		if fa[2*k+1].Result != last.hovers[k] {
-			return bad("c18-differs-from-fresh", "hover after events", fmt.Sprintf("%s(%q): history %q fresh %q", refs[k].Func, refs[k].Module, clip(last.hovers[k], 300), clip(fa[2*k+1].Result, 300)))
+		if fa[3*k+1].Result != last.hovers[k] {
+			return bad("c18-differs-from-fresh", "hover after events", fmt.Sprintf("%s(%q): history %q fresh %q", refs[k].Func, refs[k].Module, clip(last.hovers[k], 300), clip(fa[3*k+1].Result, 300)))
+		}
+		if defTarget(fa[3*k+2].Result) != last.loaded[k] {
+			return bad("c18-differs-from-fresh", "loaded file after events", fmt.Sprintf("%s(%q): history %q fresh %q", refs[k].Func, refs[k].Module, last.loaded[k], defTarget(fa[3*k+2].Result)))
 		}
 	}
 	v.NonTrivial = len(refs) >= 2
